@@ -702,6 +702,54 @@ Section V.
   Proof. intros Hf Hr Hi. apply (proj1 (resolved_agrees lf f [start] e' e (resolve_annotates start e e' Hf Hr) st Hi)). Qed.
 End V.
 
+(** * a program of the fragment as written is its own (empty) annotation; hence it keeps the binding structure *)
+Lemma depth_in_list x w l : In x l -> (val_depth x < val_depth (VList w l))%nat.
+Proof.
+  cbn [val_depth]. induction l as [|y l IH]; [intros []|]. cbn [fold_right]. intros [->|H]; [lia|specialize (IH H); lia].
+Qed.
+
+Lemma ann_refl_n V : forall n sc e, (val_depth e <= n)%nat -> fragE V e = true -> ann V sc e e.
+Proof.
+  induction n as [|n IH]; intros sc e Hd Hf.
+  { destruct e; cbn [val_depth] in Hd; lia. }
+  assert (Hlist : forall sc0 l, (forall x, In x l -> (val_depth x <= n)%nat) -> forallb (fragE V) l = true -> Forall2 (ann V sc0) l l).
+  { intros sc0. induction l as [|a r IHr]; intros Hdl Ha; [constructor|]. cbn [forallb] in Ha. apply andb_prop in Ha as [H1 H2].
+    constructor; [apply IH; [apply Hdl; left; reflexivity|exact H1]|apply IHr; [intros x Hx; apply Hdl; right; exact Hx|exact H2]]. }
+  destruct e as [| | | | |nm st| |w l| | | | |]; try discriminate Hf; try (apply an_lit; reflexivity).
+  - destruct st; [discriminate Hf|]. apply an_sym. exact Hf.
+  - destruct w; [|discriminate Hf]. destruct l as [|h rest]; [discriminate Hf|].
+    destruct h as [| | | | | |o| | | | | |]; try discriminate Hf.
+    assert (Hrest_d : forall x, In x rest -> (val_depth x <= n)%nat).
+    { intros x Hx. pose proof (depth_in_list x true (VOp o :: rest) (or_intror Hx)). lia. }
+    destruct (frag_op o) eqn:Hro.
+    + apply an_op; [exact Hro|]. apply Hlist; [exact Hrest_d|].
+      destruct o; try discriminate Hro; cbn [fragE frag_op ro_op andb orb] in Hf; exact Hf.
+    + destruct o; try discriminate Hro; try discriminate Hf.
+      * (* set *)
+        apply an_set. cbn [fragE] in Hf. clear Hro Hd. revert Hrest_d Hf. induction rest as [|b r IHr]; intros Hrd Hf; [constructor|].
+        cbn [forallb] in Hf. apply andb_prop in Hf as [Hb Hr]. constructor; [|apply IHr; [intros x Hx; apply Hrd; right; exact Hx|exact Hr]].
+        pose proof (Hrd b (or_introl eq_refl)) as Hdb.
+        destruct b as [| | | | | | |wb lb| | | | |]; try discriminate Hb. destruct wb; [|discriminate Hb].
+        destruct lb as [|k lb]; [discriminate Hb|]. destruct k as [| | | | |kn ks| | | | | | |]; try discriminate Hb.
+        destruct ks; [discriminate Hb|]. destruct lb as [|x [|? ?]]; try discriminate Hb.
+        apply andb_prop in Hb as [Hkn Hx]. exists kn, None, x, x. split; [reflexivity|]. split; [reflexivity|]. split; [exact Hkn|].
+        split; [left; reflexivity|]. apply IH; [|exact Hx].
+        pose proof (depth_in_list x true [VSym kn None; x] (or_intror (or_introl eq_refl))). lia.
+      * (* let *)
+        destruct rest as [|bl body]; [discriminate Hf|].
+        destruct bl as [| | | | | | |wb bs| | | | |]; try discriminate Hf. destruct wb; [|discriminate Hf].
+        cbn [fragE] in Hf. apply andb_prop in Hf as [Hb Hbody]. apply an_let; [exact Hb|].
+        apply Hlist; [intros x Hx; apply Hrest_d; right; exact Hx|exact Hbody].
+Qed.
+Lemma ann_refl V sc e : fragE V e = true -> ann V sc e e.
+Proof. apply (ann_refl_n V (val_depth e) sc e (le_n _)). Qed.
+
+(** let bindings vanish with the let, assignment creates no binding, the context is balanced: after a completed
+    evaluation of a program of the fragment the frames on the chain bind exactly the names they bound before *)
+Theorem fragment_keeps_binding_structure V lf f sc e st a st' :
+  fragE V e = true -> Inv V sc st -> eval lf f e st = Ok a st' -> Inv V sc st' /\ R st st'.
+Proof. intros Hf Hi H. apply (proj2 (resolved_agrees V lf f sc e e (ann_refl V sc e Hf) st Hi) a st' H). Qed.
+
 (** * the premises are met: a global g, names x y z; assignments one and three frames below their binding, shadowing *)
 Definition demo_V : list string := ["g"; "x"; "y"; "z"].
 Definition demo_state : state :=
